@@ -274,7 +274,9 @@ def install(cfg):
         except Exception:
             pass
         t = S.JSONc(tv)
-        interp.ctx.axiom(S.is_ascii(interp.ctx, t), "json.dumps(ensure_ascii=True) is ASCII")
+        interp.ctx.axiom(z3.InRe(t, S.ASCII_RE), "json.dumps(ensure_ascii=True) is ASCII")
+        interp.ctx.axiom(z3.And(S.JSONOk(t), S.JSONParse(t) == tv), "json.loads(json.dumps(v)) = v on the JSON data model")
+        interp.ctx.ghost.setdefault("JSON_terms", []).append((t, tv, True))
         return interp.mk("vstr", t)
 
     @cfg.stub(api.writes_of)
